@@ -180,8 +180,16 @@ func plausible(dir int, ch byte, b []byte) bool {
 	switch {
 	case len(b) == 0:
 		return true
+	case len(b) == 1:
+		return b[0] < 200 || b[0] == sentinelByte || b[0] == afterOverByte
 	case len(b) < 4:
-		return b[0] < 200 || (len(b) == 1 && (b[0] == sentinelByte || b[0] == afterOverByte))
+		// the first byte is the serial number modulo 200; a direction has well under 1000 messages
+		for s := int(b[0]); b[0] < 200 && s < 1000; s += 200 {
+			if bytes.Equal(b, payload(dir, ch, s, len(b), false)) {
+				return true
+			}
+		}
+		return false
 	}
 	return bytes.Equal(b, payload(dir, ch, int(b[1])<<8|int(b[2]), len(b), false))
 }
